@@ -228,6 +228,16 @@ func specPreference(accept string) string {
 	return ""
 }
 
+// fieldSafe: visible ASCII, SP and TAB only (Model.field_safe)
+func fieldSafe(s string) bool {
+	for i := 0; i < len(s); i++ {
+		if !((s[i] >= 32 && s[i] < 127) || s[i] == 9) {
+			return false
+		}
+	}
+	return true
+}
+
 func parsable(s string) bool {
 	_, _, err := mime.ParseMediaType(s)
 	return err == nil
@@ -340,15 +350,12 @@ func runResp(c RespCase) (o RespObs) {
 }
 
 // classify names the failure class of a response case from its own input and observation
-// (the two recorded findings have a signature each; anything else keeps the law's name).
+// (the recorded finding has its signature; anything else keeps the law's name).
 func classify(c RespCase, o RespObs, law string) string {
 	p, h := string(c.Preset), string(o.Header)
 	if p != "" && o.Enc != "nil" && specAnnounced(h) != o.Enc {
 		if strings.Contains(p, "+") && h == p {
 			return "preset-suffix-mismatch"
-		}
-		if !strings.Contains(p, "+") && strings.Contains(p, ";") && (h == p+"+json" || h == p+"+xml") {
-			return "preset-params-suffix-lost"
 		}
 	}
 	return law
@@ -387,8 +394,15 @@ func oracleResp(c RespCase, o RespObs) (law, what string) {
 	if preset == "" && hdr != wantType {
 		return "fresh-header-wrong", fmt.Sprintf("no header pre-set: Content-Type must be %q, is %q", wantType, hdr)
 	}
-	if preset != "" && (wantType == "application/json" || wantType == "application/xml") && !strings.HasPrefix(hdr, preset) {
-		return "preset-header-dropped", fmt.Sprintf("pre-set Content-Type %q must be kept (suffixed), header is %q", preset, hdr)
+	if preset != "" && (wantType == "application/json" || wantType == "application/xml") {
+		// the pre-set media type and its parameters must both survive
+		mtPart, params := preset, ""
+		if i := strings.Index(preset, ";"); i >= 0 {
+			mtPart, params = strings.TrimRight(preset[:i], " \t"), preset[i:]
+		}
+		if !strings.HasPrefix(hdr, mtPart) || !strings.HasSuffix(hdr, params) {
+			return "preset-header-dropped", fmt.Sprintf("pre-set Content-Type %q must be kept (suffixed), header is %q", preset, hdr)
+		}
 	}
 	ann := specAnnounced(hdr)
 	if ann != o.Enc {
@@ -625,14 +639,21 @@ func specWantKind(accept, ct string) string {
 	return "json"
 }
 
-// main-stream pre-set headers stay inside preset_ok: absent, plain (no '+', no ';'), or
-// carrying the suffix of the format the preferences ask for
+var presetParams = []string{"; charset=utf-8", ";charset=UTF-8", ";v=1", " ; q=0.5", "; a=b; c=d", `; v="1"`, "; view=default", " \t; x=y", ";"}
+
+// main-stream pre-set headers stay inside preset_ok: absent, without '+' (plain, or with
+// parameters and parsable), or carrying the suffix of the format the preferences ask for
 func genPreset(r *vh.RNG, accept, ct string) (string, string) {
 	switch k := r.Intn(100); {
 	case k < 50:
 		return "", "absent"
-	case k < 75:
+	case k < 68:
 		return vh.Pick(r, presetPlain), "plain"
+	case k < 78:
+		if p := vh.Pick(r, presetPlain) + vh.Pick(r, presetParams); parsable(p) && fieldSafe(p) && !strings.Contains(p, "+") {
+			return p, "plain+params"
+		}
+		return "application/vnd.x; charset=utf-8", "plain+params"
 	case k < 88:
 		return vh.Pick(r, []string{"application/vnd.x", "application/vnd.goa.thing", "application/hal", "Application/Problem"}) + sfxOf(specWantKind(accept, ct)), "agreeing-suffix"
 	default:
@@ -660,12 +681,19 @@ var witnessTriples = [][3]string{
 	{"", "", "a/b; x=y+z"},                              // neighbour: JSON is the decoder default
 	{"", "application/xml", "application/vnd.x+gob"},    // fails
 	{"application/gob", "", "application/vnd.x+xml"},    // neighbour: gob overwrites the header
-	{"application/xml", "", "application/vnd.x; charset=utf-8"}, // fails: preset-params-suffix-lost
-	{"", "", "application/vnd.x; charset=utf-8"},        // neighbour: JSON is the decoder default
-	{"", "", "application/xml; charset=utf-8"},          // fails
-	{"", "", "text/plain; charset=utf-8"},               // fails
-	{"", "application/xml", "application/vnd.x;v=1"},    // fails
-	{"", "application/vnd.y+xml", "application/vnd.x; charset=utf-8"}, // neighbour: vendor type overwrites
+}
+
+// the cases of the repaired defect (fixed: 04b25e0, suffix appended behind the parameters);
+// they are ordinary main-stream cases now
+var fixedParamsTriples = [][3]string{
+	{"application/xml", "", "application/vnd.x; charset=utf-8"},
+	{"", "", "application/vnd.x; charset=utf-8"},
+	{"", "", "application/xml; charset=utf-8"},
+	{"", "", "text/plain; charset=utf-8"},
+	{"", "application/xml", "application/vnd.x;v=1"},
+	{"", "application/vnd.y+xml", "application/vnd.x; charset=utf-8"},
+	{"application/xml", "", "text/plain ; charset=utf-8"},
+	{"application/xml", "", "application/json \t;q=1"},
 }
 
 var reqCorpus = []string{
@@ -749,7 +777,7 @@ type parserLog struct {
 }
 
 // oracle logs mime.ParseMediaType(s) as association entries (string id -> answer) and
-// checks the three hypotheses the theorems put on the parser against this answer.
+// checks the hypotheses the theorems put on the parser against this answer.
 // ol entries: (s, -1) for an error, (s, m) otherwise; el entries: (s, media type returned with the error).
 func (pl *parserLog) oracle(ss []string) (ol, el []int) {
 	seen := map[string]bool{}
@@ -769,10 +797,19 @@ func (pl *parserLog) oracle(ss []string) (ol, el []int) {
 		if specNorm(m) != m && len(pl.failures) < 20 {
 			pl.failures = append(pl.failures, fmt.Sprintf("parser_stable: ParseMediaType(%q)=%q but that parses to %q", s, m, specNorm(m)))
 		}
-		if !strings.Contains(s, ";") {
+		base := s
+		if i := strings.Index(s, ";"); i >= 0 {
+			base = s[:i]
+		}
+		for _, sfx := range []string{"+json", "+xml"} {
+			if strings.HasSuffix(base, sfx) && !strings.HasSuffix(m, sfx) && len(pl.failures) < 20 {
+				pl.failures = append(pl.failures, fmt.Sprintf("parser_keeps_suffix: ParseMediaType(%q)=%q", s, m))
+			}
+		}
+		if i := strings.Index(s, ";"); i >= 0 && !strings.Contains(s, "+") && fieldSafe(s) {
 			for _, sfx := range []string{"+json", "+xml"} {
-				if strings.HasSuffix(s, sfx) && !strings.HasSuffix(m, sfx) && len(pl.failures) < 20 {
-					pl.failures = append(pl.failures, fmt.Sprintf("parser_keeps_suffix: ParseMediaType(%q)=%q", s, m))
+				if ins := strings.TrimRight(s[:i], " \t") + sfx + s[i:]; !parsable(ins) && len(pl.failures) < 20 {
+					pl.failures = append(pl.failures, fmt.Sprintf("parser_accepts_suffixed: %q parses, %q does not", s, ins))
 				}
 			}
 		}
@@ -805,9 +842,10 @@ func initVocabulary() {
 	add(mtSuffix...)
 	add(mtParams...)
 	add(hostileAlphabet...)
-	for _, w := range witnessTriples {
+	for _, w := range append(append([][3]string{}, witnessTriples...), fixedParamsTriples...) {
 		add(w[0], w[1], w[2])
 	}
+	add(presetParams...)
 	add("application/", "text/", "image/", "vnd.", "charset=utf-8", "; ", ", ", "/json", "/xml", "/gob", "/plain", "/html",
 		"application/vnd.x", "application/vnd.goa.thing", "application/hal", "Application/Problem", "+txt", "+html",
 		strings.Repeat("a", 100), strings.Repeat("application/json, ", 10), strings.Repeat(" ", 100), strings.Repeat("\xff", 100), strings.Repeat("y", 100))
@@ -1059,6 +1097,11 @@ func main() {
 				doResp(RespCase{Stream: "witness", Accept: BStr(w[0]), CT: BStr(w[1]), Preset: BStr(w[2]), Value: v})
 			}
 		}
+		for _, w := range fixedParamsTriples {
+			for v := range values {
+				doResp(RespCase{Stream: "main", Accept: BStr(w[0]), CT: BStr(w[1]), Preset: BStr(w[2]), Value: v})
+			}
+		}
 		// fixed corpus of the main stream: every Accept corpus entry and every designed type, no pre-set header, one value of each kind
 		for _, a := range append([]string{""}, acceptCorpus...) {
 			for _, v := range []int{0, 3, 8, 9} {
@@ -1267,7 +1310,7 @@ func main() {
 
 	res.Evaluations = evals
 	res.Distinct = len(distinct)
-	res.Rule = "response: Accept grammar (absent, the five exact types, with parameters/q-values, comma lists, wildcards, +json/+xml/+gob suffixed, case/space variants, garbage incl. non-UTF-8, 2-5 KB values) x designed content type via goahttp.ContentTypeKey (absent, five exact, parameters, +json/+xml/+gob/+html/+txt vendor types, unknown; unparsable ones in the hostile stream) x pre-set Content-Type (main stream inside preset_ok: absent, plain, agreeing suffix; witness stream: the two recorded findings with neighbours; hostile stream: anything) x 12 values (struct, string, *string, []byte); request: Content-Type grammar x 12 values, body in the announced format; RequestEncoder x 7 headers. distinct = distinct (accept, designed, pre-set, value) resp. (header, value) tuples; non-trivial = at least one of the three strings present (resp.) / header present (req.)"
+	res.Rule = "response: Accept grammar (absent, the five exact types, with parameters/q-values, comma lists, wildcards, +json/+xml/+gob suffixed, case/space variants, garbage incl. non-UTF-8, 2-5 KB values) x designed content type via goahttp.ContentTypeKey (absent, five exact, parameters, +json/+xml/+gob/+html/+txt vendor types, unknown; unparsable ones in the hostile stream) x pre-set Content-Type (main stream inside preset_ok: absent, plain, parsable with parameters, agreeing suffix; witness stream: the recorded finding with neighbours; hostile stream: anything) x 12 values (struct, string, *string, []byte); request: Content-Type grammar x 12 values, body in the announced format; RequestEncoder x 7 headers. distinct = distinct (accept, designed, pre-set, value) resp. (header, value) tuples; non-trivial = at least one of the three strings present (resp.) / header present (req.)"
 	res.Extra["model_cases_response"] = modelled
 	res.Extra["model_cases_request"] = qn
 	res.Extra["model_cases_request_encoder"] = en
